@@ -161,30 +161,96 @@ fn risky(b: &[u8]) -> bool {
 
 /// one byte-string event; inputs that could make a faulty decoder ask for more than MEM_CAP are run in a
 /// child process, whose death becomes a "crash" event naming the function that asked
+type Item = (String, Vec<u8>, bool);
+
+thread_local! {
+    static PRE: std::cell::RefCell<HashMap<Item, Value>> = std::cell::RefCell::new(HashMap::new());
+    static TMPDIR: std::cell::RefCell<String> = std::cell::RefCell::new(std::env::temp_dir().to_string_lossy().to_string());
+}
+
+/// run byte-string events in a child process (`serde childbatch`); when the child dies at an item, that item
+/// becomes a "crash" event (naming the function if the allocator refused it) and a new child continues
+fn run_batch(items: &[Item]) -> Vec<Value> {
+    let exe = std::env::current_exe().expect("current_exe");
+    let dir = TMPDIR.with(|d| d.borrow().clone());
+    let path = format!("{}/serde-batch-{}.ndjson", dir, std::process::id());
+    let mut res: Vec<Value> = Vec::with_capacity(items.len());
+    while res.len() < items.len() {
+        let start = res.len();
+        {
+            let mut f = Out::create(&path);
+            for (kind, b, th) in &items[start..] {
+                f.emit(&json!({"ev": kind, "b": bytes_json(b), "th": th}));
+            }
+            f.flush();
+        }
+        let o = std::process::Command::new(&exe).args(["childbatch", "--in", &path]).output().expect("spawn child");
+        let stdout = String::from_utf8_lossy(&o.stdout);
+        for l in stdout.lines() {
+            if res.len() < items.len() {
+                if let Ok(v) = serde_json::from_str::<Value>(l) {
+                    res.push(v);
+                }
+            }
+        }
+        if res.len() < items.len() && (!o.status.success() || res.len() == start) {
+            let (kind, b, th) = &items[res.len()];
+            let stderr = String::from_utf8_lossy(&o.stderr).to_string();
+            let func = stderr
+                .lines()
+                .rev()
+                .find(|l| l.starts_with("OVERALLOC "))
+                .and_then(|l| l.split_whitespace().nth(1))
+                .unwrap_or("unknown")
+                .to_string();
+            let tail: String = stderr.chars().rev().take(300).collect::<Vec<_>>().into_iter().rev().collect();
+            res.push(json!({"ev": "crash", "of": kind, "b": bytes_json(b), "th": th, "fn": func,
+                            "overalloc": stderr.contains("OVERALLOC "), "msg": tail}));
+        }
+    }
+    let _ = std::fs::remove_file(&path);
+    res
+}
+
+/// the seven byte-string events of one input
+fn all_items(b: &[u8]) -> Vec<Item> {
+    vec![
+        ("de".to_string(), b.to_vec(), false),
+        ("triples".to_string(), b.to_vec(), true),
+        ("triples".to_string(), b.to_vec(), false),
+        ("hash".to_string(), b.to_vec(), false),
+        ("canon".to_string(), b.to_vec(), false),
+        ("lenb".to_string(), b.to_vec(), false),
+        ("reser".to_string(), b.to_vec(), false),
+    ]
+}
+
+/// compute the events of risky inputs ahead, in as few child processes as possible
+fn prefill(inputs: &[Vec<u8>]) {
+    let items: Vec<Item> = inputs.iter().flat_map(|b| all_items(b)).collect();
+    if items.is_empty() {
+        return;
+    }
+    let evs = run_batch(&items);
+    PRE.with(|p| {
+        let mut p = p.borrow_mut();
+        for (it, ev) in items.into_iter().zip(evs) {
+            p.insert(it, ev);
+        }
+    });
+}
+
+/// one byte-string event; inputs that could make a faulty decoder ask for more than MEM_CAP are run in a
+/// child process, whose death becomes a "crash" event naming the function that asked
 fn guarded(kind: &str, b: &[u8], th: bool) -> Value {
     if !risky(b) {
         return byte_event(kind, b, th);
     }
-    let exe = std::env::current_exe().expect("current_exe");
-    let o = std::process::Command::new(exe)
-        .args(["child", "--kind", kind, "--hex", &hex::encode(b), "--th", if th { "1" } else { "0" }])
-        .output()
-        .expect("spawn child");
-    let stdout = String::from_utf8_lossy(&o.stdout);
-    if o.status.success() {
-        if let Some(v) = stdout.lines().find_map(|l| serde_json::from_str::<Value>(l).ok()) {
-            return v;
-        }
+    let key: Item = (kind.to_string(), b.to_vec(), kind == "triples" && th);
+    if let Some(v) = PRE.with(|p| p.borrow().get(&key).cloned()) {
+        return v;
     }
-    let stderr = String::from_utf8_lossy(&o.stderr).to_string();
-    let func = stderr
-        .lines()
-        .find(|l| l.starts_with("OVERALLOC "))
-        .and_then(|l| l.split_whitespace().nth(1))
-        .unwrap_or("unknown")
-        .to_string();
-    let tail: String = stderr.chars().rev().take(300).collect::<Vec<_>>().into_iter().rev().collect();
-    json!({"ev": "crash", "of": kind, "b": bytes_json(b), "th": th, "fn": func, "overalloc": stderr.contains("OVERALLOC "), "msg": tail})
+    run_batch(&[key]).pop().unwrap()
 }
 
 fn byte_event(kind: &str, b: &[u8], th: bool) -> Value {
@@ -1092,7 +1158,13 @@ fn record_big(out: &mut Out, r: &mut Rng, caps: &Caps, thorough: bool) {
 fn main() {
     let args: Vec<String> = std::env::args().collect();
     let cmd = args.get(1).map(|s| s.as_str()).unwrap_or("");
-    let mut out = Out::create(&arg(&args, "--out").unwrap_or("-".into()));
+    let outp = arg(&args, "--out").unwrap_or("-".into());
+    if let Some(d) = std::path::Path::new(&outp).parent() {
+        if outp != "-" && !d.as_os_str().is_empty() {
+            TMPDIR.with(|t| *t.borrow_mut() = d.to_string_lossy().to_string());
+        }
+    }
+    let mut out = Out::create(&outp);
     let caps = Caps {
         virt: pow2(arg_u64(&args, "--cap-virtual", 28) as u32) + 64,
         full: pow2(arg_u64(&args, "--cap-full", 21) as u32) + 64,
@@ -1102,6 +1174,9 @@ fn main() {
             let cases = read_ndjson(&arg(&args, "--in").unwrap());
             let mut n = 0u64;
             let mut skipped = 0u64;
+            let risky_inputs: Vec<Vec<u8>> =
+                cases.iter().filter(|c| c["kind"] == "bytes").map(|c| json_bytes(&c["b"])).filter(|b| risky(b)).collect();
+            prefill(&risky_inputs);
             for c in &cases {
                 n += 1;
                 let kind = c["kind"].as_str().unwrap_or("");
@@ -1155,23 +1230,29 @@ fn main() {
                         // C16 "without over-allocating": bound from the specification (SerClassic!MemBoundFor)
                         let mb = c["mb"].as_u64().unwrap_or(u64::MAX);
                         let mbu = c["mbu"].as_u64().unwrap_or(u64::MAX);
-                        let memchk = |e: &Value, key: &str, bound: u64, name: &'static str, what: &mut Vec<&'static str>| {
+                        let memchk = |e: &Value, key: &str, bound: u64, name: &'static str, what: &mut Vec<&'static str>| -> Option<Value> {
                             if e["ev"] == "crash" {
                                 what.push(if e["overalloc"] == true { "crash-overalloc" } else { "crash" });
-                                return;
+                                return None;
                             }
                             if let Some(m) = e.get(key) {
                                 if m["req"].as_u64().unwrap_or(0) > bound || m["peak"].as_u64().unwrap_or(0) > bound {
                                     what.push(name);
+                                    return Some(m.clone());
                                 }
                             }
+                            None
                         };
                         let d = guarded("de", &b, false);
                         if d["ev"] == "crash" {
                             obs["crash_de"] = d.clone();
                         }
-                        memchk(&d, "mem_s", mb, "mem:node_from_stream", &mut what);
-                        memchk(&d, "mem_nb", mb, "mem:node_from_bytes", &mut what);
+                        if let Some(m) = memchk(&d, "mem_s", mb, "mem:node_from_stream", &mut what) {
+                            obs["mem:node_from_stream"] = m;
+                        }
+                        if let Some(m) = memchk(&d, "mem_nb", mb, "mem:node_from_bytes", &mut what) {
+                            obs["mem:node_from_bytes"] = m;
+                        }
                         let de_ok = d["ev"] == "crash" || d.get("panic").is_none()
                             && d["s"]["ok"] == ok
                             && d["nb"]["ok"] == ok
@@ -1188,7 +1269,9 @@ fn main() {
                         if t["ev"] == "crash" {
                             obs["crash_triples"] = t.clone();
                         }
-                            memchk(&t, "mem", mb, "mem:parse_triples", &mut what);
+                            if let Some(m) = memchk(&t, "mem", mb, "mem:parse_triples", &mut what) {
+                                obs["mem:parse_triples"] = m;
+                            }
                             let t_ok = t["ev"] == "crash" || t.get("panic").is_none()
                                 && t["ok"] == ok
                                 && (!ok || (t["used"] == c["used"] && t["tr"] == c["tr"] && (!th || t["h"] == c["h"])));
@@ -1201,7 +1284,9 @@ fn main() {
                         if h["ev"] == "crash" {
                             obs["crash_hash"] = h.clone();
                         }
-                        memchk(&h, "mem", mb, "mem:tree_hash_from_stream", &mut what);
+                        if let Some(m) = memchk(&h, "mem", mb, "mem:tree_hash_from_stream", &mut what) {
+                            obs["mem:tree_hash_from_stream"] = m;
+                        }
                         let h_ok = h["ev"] == "crash" || h.get("panic").is_none() && h["ok"] == ok && (!ok || (h["used"] == c["used"] && h["h"] == c["h"]));
                         if !h_ok {
                             what.push("hash");
@@ -1211,7 +1296,9 @@ fn main() {
                         if cn["ev"] == "crash" {
                             obs["crash_canon"] = cn.clone();
                         }
-                        memchk(&cn, "mem", mb, "mem:is_canonical_serialization", &mut what);
+                        if let Some(m) = memchk(&cn, "mem", mb, "mem:is_canonical_serialization", &mut what) {
+                            obs["mem:is_canonical_serialization"] = m;
+                        }
                         if cn["ev"] != "crash" && (cn.get("panic").is_some() || cn["v"] != c["canon"]) {
                             what.push("canon");
                             obs["canon"] = cn;
@@ -1220,8 +1307,12 @@ fn main() {
                         if l["ev"] == "crash" {
                             obs["crash_lenb"] = l.clone();
                         }
-                        memchk(&l, "mem_t", mb, "mem:serialized_length_from_bytes_trusted", &mut what);
-                        memchk(&l, "mem_u", mbu, "mem:serialized_length_from_bytes", &mut what);
+                        if let Some(m) = memchk(&l, "mem_t", mb, "mem:serialized_length_from_bytes_trusted", &mut what) {
+                            obs["mem:serialized_length_from_bytes_trusted"] = m;
+                        }
+                        if let Some(m) = memchk(&l, "mem_u", mbu, "mem:serialized_length_from_bytes", &mut what) {
+                            obs["mem:serialized_length_from_bytes"] = m;
+                        }
                         let lt_ok = c["lt_ok"].as_bool().unwrap();
                         let l_ok = l["ev"] == "crash" || l.get("panic").is_none()
                             && l["trusted"]["ok"] == lt_ok
@@ -1232,7 +1323,7 @@ fn main() {
                             obs["lenb"] = l;
                         }
                         if ok {
-                            let rs = ev_reser(&b);
+                            let rs = guarded("reser", &b, false);
                             // decodes and canonical => re-serializes to exactly the consumed bytes
                             let used = c["used"].as_u64().unwrap() as usize;
                             if rs.get("panic").is_some()
@@ -1389,6 +1480,8 @@ fn main() {
                         }
                     }
                 }
+                // inputs that could provoke a refused (> 1 GiB) allocation are run at the end, in child processes
+                let mut deferred: Vec<Vec<u8>> = Vec::new();
                 let last = arg(&args, "--last");
                 let note = |v: &Value| {
                     // the input about to be run, so that an abort of the process can be attributed
@@ -1416,6 +1509,10 @@ fn main() {
                                 }
                             } else {
                                 let b = gen_bytes(&mut r);
+                                if risky(&b) {
+                                    deferred.push(b);
+                                    continue;
+                                }
                                 note(&json!({"b": bytes_json(&b)}));
                                 bytes_events(&mut out, &b, "C15", &mut r);
                             }
@@ -1427,6 +1524,10 @@ fn main() {
                             } else {
                                 gen_bytes(&mut r)
                             };
+                            if risky(&b) {
+                                deferred.push(b);
+                                continue;
+                            }
                             note(&json!({"b": bytes_json(&b)}));
                             bytes_events(&mut out, &b, "C16", &mut r);
                         }
@@ -1445,16 +1546,26 @@ fn main() {
                         }
                     }
                 }
+                if !deferred.is_empty() {
+                    out.flush();
+                    prefill(&deferred);
+                    for b in &deferred {
+                        bytes_events(&mut out, b, if mix == "C16" { "C16" } else { "C15" }, &mut r);
+                    }
+                }
             }
             if let Some(sp) = arg(&args, "--stats") {
+                // (the deferred inputs have been emitted above)
                 std::fs::write(sp, json!({"lines": out.lines, "hwm_kb": hwm_kb()}).to_string()).unwrap();
             }
         }
-        "child" => {
-            // one byte-string event in a process of its own (see `guarded`)
-            let b = hex::decode(arg(&args, "--hex").unwrap_or_default()).expect("hex");
-            let kind = arg(&args, "--kind").unwrap();
-            out.emit(&byte_event(&kind, &b, arg_u64(&args, "--th", 1) == 1));
+        "childbatch" => {
+            // byte-string events in a process of its own (see `run_batch`); one line per item, flushed at once
+            for e in read_ndjson(&arg(&args, "--in").unwrap()) {
+                let b = json_bytes(&e["b"]);
+                out.emit(&byte_event(e["ev"].as_str().unwrap(), &b, e["th"].as_bool().unwrap_or(false)));
+                out.flush();
+            }
         }
         "probe-pairs" => {
             // not part of any check: the classic decoders on an input with more pairs than the
